@@ -1065,7 +1065,7 @@ MUTANTS += [
     M("extra sampler state never restored", "src/aspire/samplers/base.py", "self._restore_extra_state(state)\n        return samples, state", "return samples, state", ("C11.src", "C11.state")),
     M("restored iteration read from the wrong key", _B, "iteration = state.get(\"iteration\", 0)", "iteration = state.get(\"iter\", 0)", ("C11.restore", "C11.keys")),
     M("restored beta read from the state root only", _B, "beta = meta.get(\"beta\", None)", "beta = meta.get(\"min_step\", None)", "C11.restore"),
-    M("history default replaces the stored one", _B, "self.history = state.get(\"history\", SMCHistory())", "self.history = SMCHistory()", "C11.restore"),
+    M("history default replaces the stored one", _B, "self.history = copy.deepcopy(state.get(\"history\", SMCHistory()))", "self.history = SMCHistory()", "C11.restore"),
     M("bytes source treated as a path", _SB, "if isinstance(source, str):\n            state = self.load_checkpoint_from_file(source)\n        elif isinstance(source, bytes):\n            state = pickle.loads(source)", "if isinstance(source, bytes):\n            state = self.load_checkpoint_from_file(source)\n        elif isinstance(source, str):\n            state = pickle.loads(source)", "C11.src"),
     M("finished test looks at the second recorded temperature", _B, "last_beta = self.history.beta[-1] if self.history.beta else beta", "last_beta = self.history.beta[1] if self.history.beta else beta", "C11.finished"),
     M("finished run iterates again on resume", _B, "if last_beta >= 1.0 or (", "if last_beta > 1.0 or (", "C11.finished"),
